@@ -5,7 +5,10 @@ CONSTANTS
   FlatShapes <- FS
   CdfSamples <- CS
   CdfQueries <- CQ
+  BandM <- BM
+  BandEps <- BE
 INVARIANT NodeFixed
 INVARIANT FlatBijective
+INVARIANT BandSound
 INVARIANT Emit
 CHECK_DEADLOCK FALSE
